@@ -30,6 +30,7 @@ structure St where
   device : String
   devId : Nat
   bytes : Array Nat := #[]
+  gens : List (Nat × Nat × Nat) := []     -- (count, frame size, pattern id) of generated bursts, in order
 
 def init (f : List String) : St := { device := kvS f "device", devId := nat (kvS f "id") }
 
@@ -60,13 +61,36 @@ def expect (st : St) : Expect :=
                deviceName := strBytes st.device, deviceID := st.devId },
       frames := frames, truncated := part, headerOk := true }
 
+def hashP : UInt64 := 2305843009213693951
+
+def hashStep (h : UInt64) (b : UInt64) : UInt64 := (h * 1000003 + b + 1) % hashP
+
+def hashBytes (h : UInt64) (bs : List Nat) : UInt64 := bs.foldl (fun acc b => hashStep acc b.toUInt64) h
+
+/-- hash and length of header ++ generated frame sections, without materialising the file -/
+def hashGenerated (hdrBytes : List Nat) (gens : List (Nat × Nat × Nat)) : UInt64 × Nat := Id.run do
+  let mut h := hashBytes 0 hdrBytes
+  let mut len := hdrBytes.length
+  for (cnt, fsize, pid) in gens do
+    let sec := [70, 1] ++ CPTR.encodeField ⟨102, CPTR.le 4 fsize⟩
+    for k in [0:cnt] do
+      h := hashBytes h sec
+      for j in [0:fsize] do
+        h := hashStep h ((k * 31 + j * 7 + pid) % 251).toUInt64
+      len := len + sec.length + fsize
+  return (h, len)
+
 def step (st : St) (bl : Block) : St × List String :=
   match bl.op with
+  | ["g", cnt, fsize, pid] => ({ st with gens := st.gens ++ [(nat cnt, nat fsize, nat pid)] }, [])
   | ["b", hex] => ({ st with bytes := st.bytes ++ parseHexBytes hex }, [])
   | ["stall", _] => (st, [])
   | ["end"] =>
     let e := expect st
     if !e.headerOk then (st, ["conn error"]) else
+    if !st.gens.isEmpty then
+      let (h, len) := hashGenerated (CPTR.encodeHeader e.hdr) st.gens
+      (st, ["conn eof", s!"file 0 .cptr hash={h} len={len}", "files 1"]) else
     (st, [if e.truncated then "conn truncated" else "conn eof",
           s!"file 0 .cptr {toHex (CPTR.encodeFile e.hdr e.frames)}", "files 1"])
   | _ => (st, ["bad-op"])
@@ -85,11 +109,17 @@ def monStep (m : MSt) (bl : Block) : MSt × List String :=
   | ["b", hex] =>
     let b := parseHexBytes hex
     ({ m with st := { m.st with bytes := m.st.bytes ++ b }, bytesIn := m.bytesIn + b.size, segs := m.segs + 1 }, [])
+  | ["g", cnt, fsize, pid] =>
+    ({ m with st := { m.st with gens := m.st.gens ++ [(nat cnt, nat fsize, nat pid)] }, bytesIn := m.bytesIn + nat cnt * nat fsize }, [])
   | ["end"] =>
     let e := expect m.st
     let files := bl.outs.filter fun o => o.head? == some "file"
-    let m := { m with frames := e.frames.length }
+    let m := { m with frames := e.frames.length + (m.st.gens.map (·.1)).foldl (· + ·) 0 }
     if !e.headerOk then (m, []) else
+    if !m.st.gens.isEmpty then
+      let (h, len) := hashGenerated (CPTR.encodeHeader e.hdr) m.st.gens
+      if files == [["file", "0", ".cptr", s!"hash={h}", s!"len={len}"]] then (m, [])
+      else (m, ["prop=C18 reason=large-file-bytes-differ-from-the-format"]) else
     match files with
     | [[_, _, ext, hex]] =>
       let data := (parseHexBytes hex).toList
